@@ -82,9 +82,10 @@ def t_conv(world):
     return obs
 
 
-def valid7(calc_name):
-    """reference validity predicate over the calc's symbolic fields; returns (hyps, utils, rates, zero, hundred)"""
-    pi = STRUCTS[IRC].index('points'); zi = STRUCTS[IRC].index('zero_util_rate'); hi = STRUCTS[IRC].index('hundred_util_rate')
+def valid7(calc_name, sname=None):
+    """reference validity predicate over the calc's (or config's) symbolic fields; returns (hyps, utils, rates, zero, hundred)"""
+    sname = sname or IRC
+    pi = STRUCTS[sname].index('points'); zi = STRUCTS[sname].index('zero_util_rate'); hi = STRUCTS[sname].index('hundred_util_rate')
     u = [z3.Int(f'{calc_name}.{pi}[{k}].0') for k in range(5)]
     r = [z3.Int(f'{calc_name}.{pi}[{k}].1') for k in range(5)]
     z = z3.Int(f'{calc_name}.{zi}'); h = z3.Int(f'{calc_name}.{hi}')
@@ -314,3 +315,47 @@ def t_calc_rate(world):
 _t0 = tasks
 def tasks(tier):
     return _t0(tier) + [('legacy', t_legacy), ('calc_rate', t_calc_rate)]
+
+
+
+# ---------------------------------------------------------------- C18.v: the validator accepts only curves of the domain the curve obligations assume
+def t_validator(world):
+    eng = world.engine(max_paths=200000)
+    f = world.fn(r'interest_rate\.rs[^>]*>::validate_seven_point$')
+    cfg = eng.ex.fresh(f.params[0][1], 'irc'); res = eng.run_fn(f, [cfg])
+    ob = Ob('C18.v', 'validate_seven_point accepts only curves in the domain assumed by C18.b/c: padding (0,0) only at the end, kink utils strictly increasing, kink rates non-decreasing, EVERY kink rate within [zero-util rate, hundred-util rate], zero <= hundred; and create_interest_rate_calculator copies points and end rates verbatim',
+            [f.name], '5 points unrolled (Vec model: concrete length per path); all u32 values'); ob.paths = len(res)
+    H, u, r_, z, h = valid7('irc*', 'InterestRateConfig')
+    n_ok = 0
+    for r, okc in ok_paths(res):
+        if ob.witness(eng, r, [okc]) is False: continue
+        n_ok += 1
+        for k, hk in enumerate(H):
+            ob.prove(eng, r, [okc], hk, f'accepted => domain conjunct {k}: {str(hk)[:90]}', role='validator-domain')
+    ob.notes.append(f'{n_ok} accepting paths (0..5 used points)')
+    ob.need_witness()
+    # the calculator sees exactly the validated numbers
+    eng2 = world.engine(opaque=[r'get_group_bank_config$'])
+    f2 = world.fn(r'interest_rate\.rs[^>]*>::create_interest_rate_calculator$')
+    a2 = [eng2.ex.fresh(ty, n) for n, (_, ty) in zip(['irc', 'grp'], f2.params)]
+    res2 = eng2.run_fn(f2, a2)
+    ob2 = Ob('C18.v.calc', 'create_interest_rate_calculator copies zero/hundred rates, the five points and the curve type verbatim from the validated config', [f2.name], 'loop-free'); ob2.paths = len(res2)
+    CI = STRUCTS[IRC]; GI = STRUCTS['InterestRateConfig']
+    for r in returned(res2):
+        if ob2.witness(eng2, r, []) is False: continue
+        calc = r['ret']
+        eqs = []
+        for fld in ('zero_util_rate', 'hundred_util_rate', 'curve_type'):
+            eqs.append(ev(fget(eng2, calc, IRC, fld)) == fsym('irc*', 'InterestRateConfig', fld))
+        pts = eng2.get_path(calc, (('f', CI.index('points'), '[RatePoint; 5]'),))
+        for k in range(5):
+            for j in (0, 1):
+                eqs.append(ev(eng2.get_path(pts, (('i', k), ('f', j, 'u32')))) == z3.Int(f'irc*.{GI.index("points")}[{k}].{j}'))
+        ob2.prove(eng2, r, [], z3.And(eqs), 'verbatim copy')
+    ob2.need_witness()
+    return [ob, ob2]
+
+
+_t1v = tasks
+def tasks(tier):
+    return _t1v(tier) + [('validator', t_validator)]
